@@ -242,6 +242,12 @@ func (w *walker) step() {
 			add(4, sim.Action{Op: "metrics", Key: j.Name, V: w.val(isES(trialByName[j.Name]))})
 		}
 	}
+	// the objective value arrives after a first report without it (also when the run object is already gone)
+	for _, t := range p.Trials {
+		if dbNone[t.Name] {
+			add(1.5, sim.Action{Op: "metrics", Key: t.Name, V: w.val(true)})
+		}
+	}
 	if s.Cfg.ES {
 		for _, t := range p.Trials {
 			running, done := false, false
@@ -343,6 +349,16 @@ func (w *walker) drain() *int {
 				envActed = true
 			}
 		}
+		dbNil := map[int]bool{}
+		for _, d := range p.Db {
+			dbNil[d.Name] = d.Val == nil
+		}
+		for _, t := range p.Trials {
+			if dbNil[t.Name] && trialES(t) {
+				w.do(sim.Action{Op: "metrics", Key: t.Name, V: p64(int64(w.r.Intn(17)))})
+				envActed = true
+			}
+		}
 		for _, t := range p.Trials {
 			if !inDB[t.Name] {
 				v := p64(int64(w.r.Intn(17)))
@@ -410,6 +426,15 @@ func cachedDone(s *sim.Sim, n int) bool {
 	for _, t := range s.CachedTrials() {
 		if t[0].(int) == n {
 			return t[1].(bool)
+		}
+	}
+	return false
+}
+
+func trialES(t sim.PTrial) bool {
+	for _, c := range t.Conds {
+		if c.T == 6 && c.S == "True" {
+			return true
 		}
 	}
 	return false
